@@ -81,7 +81,8 @@ def gen_norm(rng, n, tier="quick"):
         by_name = z.iana is not None and rng.random() < 0.5
         tzarg = z.iana if by_name else z.tzinfo
         tz_tok = ("Zname:%d" if by_name else "Zobj:%d") % z.id
-        k = i % 7
+        k = i % 11
+        k = {9: 7, 10: 7}.get(k, k)       # the period functions three times as often
         descr = {"observer": obs_descr(o), "zone": z.describe(), "tz_by_name": by_name,
                  "now": now.isoformat()}
         if k in (0, 1, 2, 3):
@@ -138,6 +139,47 @@ def gen_norm(rng, n, tier="quick"):
             yield Case(fn, "pub_%s %s %s %s %s" % (fn, obs_tok(o), I(darg.toordinal()) if darg else N,
                                                    tz_tok, I(instant_us(now))),
                        TZD(v, z.tzinfo) if st == "ok" else E(v), descr)
+        elif k == 7:
+            # the period functions: date omitted / given, zone by name / object
+            fn = rng.choice(["daylight", "night", "twilight", "golden_hour", "blue_hour", "rahu_day",
+                             "rahu_night"])
+            darg = d if rng.random() < 0.45 else None
+            di = rng.choice([SunDirection.RISING, SunDirection.SETTING])
+            descr.update({"function": fn, "date": repr(darg), "dir": di.name})
+            with FrozenClock(now):
+                if fn in ("daylight", "night"):
+                    st, v = call(getattr(sun, fn), o, darg, tzarg)
+                elif fn in ("twilight", "golden_hour", "blue_hour"):
+                    st, v = call(getattr(sun, fn), o, darg, di, tzarg)
+                else:
+                    st, v = call(sun.rahukaalam, o, darg, fn == "rahu_day", tzarg)
+            if st == "ok":
+                exp = ("%s %s" % (TZD(v[0], z.tzinfo), TZD(v[1], z.tzinfo))
+                       if type(v) is tuple and len(v) == 2 else "X%s" % type(v).__name__)
+            else:
+                exp = E(v)
+            yield Case(fn, "pub_period %s %s %s %s %s %s" % (
+                fn, obs_tok(o), I(darg.toordinal()) if darg else N, dir_tok(di), tz_tok,
+                I(instant_us(now))), exp, descr)
+        elif k == 8:
+            darg = d if rng.random() < 0.45 else None
+            dn = rng.choice(["civil", "nautical", "astronomical", "num"])
+            if dn == "num":
+                depv = rng.choice([6, 12.0, 18, rng.uniform(0, 25)])
+                dep_tok, dep_arg = F(depv), depv
+            else:
+                dep_tok, dep_arg = dn, DEP_ENUM[dn]
+            descr.update({"function": "sun", "date": repr(darg), "depression": repr(dep_arg)})
+            with FrozenClock(now):
+                st, v = call(sun.sun, o, darg, dep_arg, tzarg)
+            if st == "ok":
+                exp = (" ".join(TZD(v[key], z.tzinfo) for key in ("dawn", "sunrise", "noon", "sunset", "dusk"))
+                       if type(v) is dict and list(v) == ["dawn", "sunrise", "noon", "sunset", "dusk"] else "Xkeys")
+            else:
+                exp = E(v)
+            yield Case("sun", "pub_sun %s %s %s %s %s" % (
+                obs_tok(o), I(darg.toordinal()) if darg else N, dep_tok, tz_tok, I(instant_us(now))),
+                exp, descr)
         else:
             rise = rng.random() < 0.5
             sp = rng.random()
